@@ -34,19 +34,26 @@ func (src *Rollout) ConvertTo(dst conversion.Hub) error {
 		obj.ObjectMeta = src.ObjectMeta
 		obj.Spec = v1beta1.RolloutSpec{}
 		srcSpec := src.Spec
-		obj.Spec.WorkloadRef = v1beta1.ObjectRef{
-			APIVersion: srcSpec.ObjectRef.WorkloadRef.APIVersion,
-			Kind:       srcSpec.ObjectRef.WorkloadRef.Kind,
-			Name:       srcSpec.ObjectRef.WorkloadRef.Name,
+		if workloadRef := srcSpec.ObjectRef.WorkloadRef; workloadRef != nil {
+			obj.Spec.WorkloadRef = v1beta1.ObjectRef{
+				APIVersion: workloadRef.APIVersion,
+				Kind:       workloadRef.Kind,
+				Name:       workloadRef.Name,
+			}
 		}
 		obj.Spec.Disabled = srcSpec.Disabled
+		// workloadRef and canary are optional in the schema
+		srcCanary := srcSpec.Strategy.Canary
+		if srcCanary == nil {
+			srcCanary = &CanaryStrategy{}
+		}
 		obj.Spec.Strategy = v1beta1.RolloutStrategy{
 			Paused: srcSpec.Strategy.Paused,
 			Canary: &v1beta1.CanaryStrategy{
-				FailureThreshold: srcSpec.Strategy.Canary.FailureThreshold,
+				FailureThreshold: srcCanary.FailureThreshold,
 			},
 		}
-		for _, step := range srcSpec.Strategy.Canary.Steps {
+		for _, step := range srcCanary.Steps {
 			o := v1beta1.CanaryStep{
 				TrafficRoutingStrategy: ConversionToV1beta1TrafficRoutingStrategy(step.TrafficRoutingStrategy),
 				Replicas:               step.Replicas,
@@ -60,19 +67,19 @@ func (src *Rollout) ConvertTo(dst conversion.Hub) error {
 			}
 			obj.Spec.Strategy.Canary.Steps = append(obj.Spec.Strategy.Canary.Steps, o)
 		}
-		for _, ref := range srcSpec.Strategy.Canary.TrafficRoutings {
+		for _, ref := range srcCanary.TrafficRoutings {
 			o := ConversionToV1beta1TrafficRoutingRef(ref)
 			obj.Spec.Strategy.Canary.TrafficRoutings = append(obj.Spec.Strategy.Canary.TrafficRoutings, o)
 		}
-		if srcSpec.Strategy.Canary.PatchPodTemplateMetadata != nil {
+		if srcCanary.PatchPodTemplateMetadata != nil {
 			obj.Spec.Strategy.Canary.PatchPodTemplateMetadata = &v1beta1.PatchPodTemplateMetadata{
 				Annotations: map[string]string{},
 				Labels:      map[string]string{},
 			}
-			for k, v := range srcSpec.Strategy.Canary.PatchPodTemplateMetadata.Annotations {
+			for k, v := range srcCanary.PatchPodTemplateMetadata.Annotations {
 				obj.Spec.Strategy.Canary.PatchPodTemplateMetadata.Annotations[k] = v
 			}
-			for k, v := range srcSpec.Strategy.Canary.PatchPodTemplateMetadata.Labels {
+			for k, v := range srcCanary.PatchPodTemplateMetadata.Labels {
 				obj.Spec.Strategy.Canary.PatchPodTemplateMetadata.Labels[k] = v
 			}
 		}
@@ -171,7 +178,7 @@ func (dst *Rollout) ConvertFrom(src conversion.Hub) error {
 	case *v1beta1.Rollout:
 		srcV1beta1 := src.(*v1beta1.Rollout)
 		dst.ObjectMeta = srcV1beta1.ObjectMeta
-		if !srcV1beta1.Spec.Strategy.IsCanaryStragegy() {
+		if srcV1beta1.Spec.Strategy.IsEmptyRelease() || !srcV1beta1.Spec.Strategy.IsCanaryStragegy() {
 			// only v1beta1 supports bluegreen strategy
 			// Don't log the message because it will print too often
 			return nil
@@ -319,10 +326,12 @@ func (src *BatchRelease) ConvertTo(dst conversion.Hub) error {
 		obj.ObjectMeta = src.ObjectMeta
 		obj.Spec = v1beta1.BatchReleaseSpec{}
 		srcSpec := src.Spec
-		obj.Spec.WorkloadRef = v1beta1.ObjectRef{
-			APIVersion: srcSpec.TargetRef.WorkloadRef.APIVersion,
-			Kind:       srcSpec.TargetRef.WorkloadRef.Kind,
-			Name:       srcSpec.TargetRef.WorkloadRef.Name,
+		if workloadRef := srcSpec.TargetRef.WorkloadRef; workloadRef != nil {
+			obj.Spec.WorkloadRef = v1beta1.ObjectRef{
+				APIVersion: workloadRef.APIVersion,
+				Kind:       workloadRef.Kind,
+				Name:       workloadRef.Name,
+			}
 		}
 		obj.Spec.ReleasePlan = v1beta1.ReleasePlan{
 			BatchPartition:   srcSpec.ReleasePlan.BatchPartition,
